@@ -72,6 +72,8 @@ def run(c):
     c.assumptions += ['HKDF limit reached by positioning the documented public `counter` field (quick) and once honestly by an 8160-byte one-shot run (thorough)',
                       'input VALUES sampled; output-length, iteration-count and key-length classes enumerated']
     c.tv(p, 'rel', 'kdf', max_cost=30.0)
+    if c.tier != 'thorough':
+        c.tv_sample(p, 'kdf', ('c32', 'c64', 'dxor'), k=40, max_cost=15.0, pred=lambda cs: cs[1] < 4)      # per-back-end precomputed states
     if c.tier == 'thorough':
         c.tv(p, 'c32', 'kdf', max_cost=30.0)
     c.cov['rule'] = 'case per (function, output length class, count / key / salt class); distinct = those tuples'
